@@ -272,6 +272,11 @@ func genFlow(rng *rand.Rand, o *wireOpts, v Variant, c *sim.Call, fi int, actor 
 			} else {
 				hp.Replies = append(hp.Replies, r)
 			}
+			if atDest && !serial && chance(rng, 0.08) {
+				// a path change under the probe: a router one hop short of the target reports time-exceeded
+				// for this TTL and the target answers it as well (either may come first)
+				hp.Replies = append(hp.Replies, sim.Reply{Form: "te28", From: routerAddr(v.V6, fi, t), DelayUs: int64(between(rng, 50, int(max64(delay*2, 100)))), K: rng.IntN(4)})
+			}
 		}
 		// look-alikes: delivered before the genuine reply (or for a TTL that stays silent)
 		if o.adversarial > 0 {
